@@ -89,6 +89,28 @@ def batch_strides(text: str) -> dict:
     return {m.group(1): m.group(2).strip() for m in re.finditer(r"\bint\s+(\w+start)\s*=\s*cur\s*\*\s*([^;]+);", strip_comments(text))}
 
 
+def batched_matrix_sites(text: str) -> list:
+    """the solver class of the batched GPU back-end (naunet.cu): every statement that (re)creates a block-CSR matrix
+    `X = SUNMatrix_cuSparse_NewBlockCSR(...)` and whether `InitJac(X)` -- the only place row pointers and column indices reach the
+    matrix -- follows before the next creation or the end of the function.  -> [(function, matrix expression, structure uploaded)]"""
+    t = strip_comments(text)
+    out = []
+    for m in re.finditer(r"\bint\s+Naunet::(\w+)\s*\([^)]*\)\s*\{", t):
+        i = m.end() - 1
+        depth, j = 0, i
+        while j < len(t):
+            depth += {"{": 1, "}": -1}.get(t[j], 0)
+            if depth == 0:
+                break
+            j += 1
+        body = t[i:j]
+        sites = [(mm.start(), mm.group(1).strip()) for mm in re.finditer(r"([\w\[\]\.\->]+)\s*=\s*SUNMatrix_cuSparse_NewBlockCSR\s*\(", body)]
+        for n, (pos, var) in enumerate(sites):
+            end = sites[n + 1][0] if n + 1 < len(sites) else len(body)
+            out.append((m.group(1), var, bool(re.search(r"\bInitJac\s*\(\s*" + re.escape(var) + r"\s*\)", body[pos:end]))))
+    return out
+
+
 def batch_context(text: str) -> dict:
     """the batched GPU kernels (`__global__ void XKernel(..., NaunetData *d_udata, int nsystem)`): does every system work on ITS OWN slice?
     own_params: the kernel takes `&d_udata[cur]` and hands exactly that pointer to every Eval*Rates call (and reads its parameters
